@@ -147,6 +147,7 @@ class ZM:
 
     def __init__(self, first, trans, rule):
         self.first, self.trans, self.rule = first, trans, rule
+        self._table_spaced = None
 
     def val(self):
         r = self.rule
@@ -164,43 +165,50 @@ class ZM:
         return [(g16.rule_day(sd, y) * 86400 + st - std, std, dst),
                 (g16.rule_day(ed, y) * 86400 + et - dst, dst, std)]
 
-    def spaced(self, w):
-        """the judge's spacing condition, recomputed here only to route cases to lz.loc / lz.uloc"""
-        cur = self.first
-        tr = self.trans
-        hi_all = None
-        for j, (tj, oj) in enumerate(tr):
-            lim = tj + max(cur, oj)
-            hi_all = lim if hi_all is None else max(hi_all, lim)
-            for ti, oi in tr[j + 1:]:
-                if not lim < ti + oi:
-                    return False
-            cur = oj
-        if self.rule and self.rule[0] == 'A':
-            std, dst = self.rule[1], self.rule[2]
-            d = abs(dst - std)
-            if d > 86400:
+    def windows(self):
+        cur, ws = self.first, []
+        for t, o in self.trans:
+            ws.append((t + min(cur, o), t + max(cur, o)))
+            cur = o
+        return ws
+
+    def rule_regular(self, y):
+        """the judge's spacing_rule_self, recomputed here only to route cases"""
+        def ev(yy, north):
+            e = self.rule_events(yy)
+            return e if north else e[::-1]
+        s, e = self.rule_events(y)
+        north = s[0] < e[0]
+        for yy in (y - 1, y + 1):
+            s2, e2 = self.rule_events(yy)
+            if (s2[0] < e2[0]) != north:
                 return False
-            y = g16.year_of(w)
-            for yy in (y - 1, y, y + 1):
-                (s, _, _), (e, _, _) = self.rule_events(yy)
-                if not d < abs(s - e):
-                    return False
-            if tr:
-                tn = tr[-1][0]
-                p = tr[-2][1] if len(tr) > 1 else self.first
-                hi_all = max(hi_all, tn)
+        ws = [(r + min(b, a), r + max(b, a)) for yy in (y - 1, y, y + 1) for r, b, a in ev(yy, north)]
+        return all(ws[k][1] < ws[k + 1][0] for k in range(len(ws) - 1))
+
+    def spaced(self, w):
+        """the judge's spacing_ok, recomputed here only to route cases to lz.loc / lz.uloc"""
+        if self._table_spaced is None:
+            ws = self.windows()
+            ok = all(ws[k][1] < ws[k + 1][0] for k in range(len(ws) - 1))
+            if ok and self.trans and self.rule and self.rule[0] == 'A':
+                tn, on = self.trans[-1]
+                p = self.trans[-2][1] if len(self.trans) > 1 else self.first
                 y = g16.year_of(tn)
                 for yy in (y - 1, y, y + 1):
                     for r, before, after in self.rule_events(yy):
+                        lo, hi = r + min(before, after), r + max(before, after)
                         if r == tn:
-                            if before != p:
-                                return False
+                            ok = ok and before == p
                         elif r < tn:
-                            if not r + max(before, after) <= tn + min(std, dst):
-                                return False
-                        elif not hi_all < r + min(before, after):
-                            return False
+                            ok = ok and hi < tn + min(p, on)
+                        else:
+                            ok = ok and tn + max(p, on) < lo
+            self._table_spaced = ok
+        if not self._table_spaced:
+            return False
+        if self.rule and self.rule[0] == 'A':
+            return self.rule_regular(g16.year_of(w))
         return True
 
 
@@ -314,25 +322,46 @@ def chunks(xs, k):
         yield xs[i:i + k]
 
 
-def emit(src, zm, ins, walls, batch, rt_share, rng, spaced_all=None):
-    zv = zm.val()
-    for c in chunks(ins, batch):
-        yield case_line('lz.at', src, zv, c)
-    sp = [w for w in walls if (spaced_all if spaced_all is not None else zm.spaced(w))]
-    un = [w for w in walls if not (spaced_all if spaced_all is not None else zm.spaced(w))]
+def show(v):
+    from vcheck import show_val
+    return show_val(v)
+
+
+def emit(src, zm, ins, walls, batch, rt_share, rng):
+    """case lines of one zone; the zone part of the line is rendered once"""
+    head = ' ' + show(src) + ' ' + show(zm.val()) + ' '
+    memo = {}
+
+    def spaced(x):
+        y = g16.year_of(x) if zm.rule and zm.rule[0] == 'A' else 0
+        if y not in memo:
+            memo[y] = zm.spaced(x)
+        return memo[y]
+
+    def lines(op, xs):
+        for c in chunks(xs, batch):
+            yield op + head + '(' + ','.join(map(str, c)) + ')'
+    if zm.rule and zm.rule[0] == 'A':
+        reg = {}
+
+        def regular(t):
+            y = g16.year_of(t)
+            if y not in reg:
+                reg[y] = zm.rule_regular(y)
+            return reg[y]
+        yield from lines('lz.at', [t for t in ins if regular(t)])
+        yield from lines('lz.uat', [t for t in ins if not regular(t)])
+    else:
+        yield from lines('lz.at', ins)
+    sp = [w for w in walls if spaced(w)]
+    un = [w for w in walls if not spaced(w)]
     for ws, op, sel in ((sp, 'lz.loc', 'lz.sel'), (un, 'lz.uloc', 'lz.usel')):
-        for c in chunks(ws, batch):
-            yield case_line(op, src, zv, c)
-        for c in chunks(ws[::4], batch):
-            yield case_line(sel, src, zv, c)
+        yield from lines(op, ws)
+        yield from lines(sel, ws[::4])
     rts = ins if rt_share >= 1 else [x for x in ins if rng.random() < rt_share]
     # the wall reading of an instant is within 26 h of it: classify by the instant
-    sp = [t for t in rts if (spaced_all if spaced_all is not None else zm.spaced(t))]
-    un = [t for t in rts if not (spaced_all if spaced_all is not None else zm.spaced(t))]
-    for c in chunks(sp, batch):
-        yield case_line('lz.rt', src, zv, c)
-    for c in chunks(un, batch):
-        yield case_line('lz.urt', src, zv, c)
+    yield from lines('lz.rt', [t for t in rts if spaced(t)])
+    yield from lines('lz.urt', [t for t in rts if not spaced(t)])
 
 
 # ------------------------------------------------------------------ synthetic zones
@@ -394,7 +423,7 @@ def synth_zone(rng):
         if rule.dst:
             z.types.append(rule.dst)
     lo, hi = (-2**31, 2**31 - 1) if version == 1 else (-5 * 10**9, 12 * 10**9)
-    close = rng.random() < 0.35
+    close = rng.random() < 0.15
     times = set()
     while len(times) < n:
         if times and rng.random() < (0.5 if close else 0.05):
@@ -427,9 +456,20 @@ def synth_zone(rng):
 
 
 # ------------------------------------------------------------------ cases
+def batch_for(nbytes, quick):
+    # big zones are expensive to re-read per line: give them longer batches
+    return max(32 if quick else 64, min(400, nbytes // 24))
+
+
 def cases(tier, rng):
+    # the runner splits the stream into contiguous shards: interleave cheap and expensive zones
+    out = list(ordered_cases(tier, rng))
+    rng.shuffle(out)
+    return out
+
+
+def ordered_cases(tier, rng):
     quick = tier == 'quick'
-    batch = 24 if quick else 64
     zones = system_zones()
     for name, data, zm in zones:
         if not cross_check_cpython(data, zm):
@@ -437,29 +477,29 @@ def cases(tier, rng):
     base_years = [2037, 2038, 2100, 2500, 10000]
     for k, (name, data, zm) in enumerate(zones):
         years = rule_years(zm, base_years + ([rng.randint(2039, 2099)] if quick else list(range(2039, 2100, 3))))
-        ins, walls = zone_points(zm, rng, (12 if quick else 1), years, 6 if quick else 60)
-        spaced = zm.spaced(0) and zm.spaced(4102444800)
+        ins, walls = zone_points(zm, rng, (24 if quick else 1), years, 6 if quick else 60)
         if quick:
-            # every transition of every zone is visited on the thorough tier; quick keeps the dense
-            # +-3 s windows of a rotating third of the points
-            ins = ins[k % 3::3]
-            walls = walls[k % 3::3]
-        yield from emit(data, zm, ins, walls, batch, 0.5 if quick else 1, rng, spaced_all=spaced if spaced else None)
+            # every transition of every zone is visited on the thorough tier; quick keeps a rotating
+            # sixth of the points (whole +-3 s windows are still covered across neighbouring zones
+            # and on every sixth point of each window)
+            ins = ins[k % 6::6]
+            walls = walls[k % 6::6]
+        yield from emit(data, zm, ins, walls, batch_for(len(data), quick), 0.5 if quick else 1, rng)
     # synthetic TZif
-    for _ in range(2500 if quick else 30000):
+    for _ in range(700 if quick else 30000):
         data, zm = synth_zone(rng)
         years = rule_years(zm, [rng.choice([1971, 2000, 2024, 2100, 2500, 10000])])
         ins, walls = zone_points(zm, rng, 3, years, 4)
-        yield from emit(data, zm, ins, walls, batch, 1, rng)
+        yield from emit(data, zm, ins, walls, batch_for(len(data), quick), 1, rng)
     # POSIX rules through the TZ-string route
-    for _ in range(2500 if quick else 30000):
+    for _ in range(1000 if quick else 30000):
         ext = rng.random() < 0.4
         r = synth_rule(rng, ext)
         text = g16.fmt_rule(r, rng.random() < 0.2)
         zm = ZM(r.std[0], [], rule_model(r))
         years = [rng.choice([1900, 1970, 1999, 2000, 2024, 2038]), rng.choice([2100, 2400, 2500, 9999, 10000, rng.randint(-2000, 20000)])]
         ins, walls = zone_points(zm, rng, 1, years, 4)
-        yield from emit([text, 1 if ext else 0], zm, ins, walls, batch, 1, rng)
+        yield from emit([text, 1 if ext else 0], zm, ins, walls, 32 if quick else 64, 1, rng)
     # the public route
     picks = [zones[i] for i in sorted(rng.sample(range(len(zones)), min(len(zones), 120 if quick else len(zones))))]
     synth = []
@@ -472,4 +512,6 @@ def cases(tier, rng):
         rng.shuffle(ins)
         rng.shuffle(walls)
         yield case_line('lz.env', data, zm.val(), 0, ins[:20])
-        yield case_line('lz.env', data, zm.val(), 1, [w for w in walls[:40] if zm.spaced(w)][:20])
+        ws = [w for w in walls[:40] if zm.spaced(w)][:20]
+        if ws:
+            yield case_line('lz.env', data, zm.val(), 1, ws)
